@@ -36,7 +36,7 @@ ASSUMPTIONS = [
 
 MEDIA = [
     "application/json", "application/json", "application/problem+json", "text/plain", "application/xml", "application/*", "*/*",
-    "application/json; charset=utf-8", "application/x-ndjson", "application/vnd.api+json", "text/json",
+    "application/json; charset=utf-8", "application/x-ndjson", "application/vnd.api+json", "text/json", "application/json ; charset=utf-8",
 ]
 KEYS = ["200", "201", "204", "404", "500", "2XX", "4XX", "5xx", "default"]
 STATUSES = [200, 201, 204, 299, 301, 400, 404, 418, 500, 503]
@@ -160,7 +160,14 @@ def pair(draw):
             documented = list(d.get("content", {}))
         choice = draw(st.sampled_from(documented + ["text/html", None, "application/json", "APPLICATION/JSON", "application/json;charset=UTF-8", "application/x-ndjson", "notamediatype", "application/vnd.x+json"]))
         if choice is not None:
-            headers["Content-Type"] = choice.replace("*", "json") if "*" in choice else choice
+            value = choice.replace("*", "json") if "*" in choice else choice
+            if ";" not in value:
+                # RFC 9110 spellings of one media type: optional whitespace around `;`, quoted parameter values, letter case
+                decoration = draw(st.sampled_from(["", "", "", ";charset=utf-8", " ; charset=utf-8", " ;charset=\"utf-8\"", '; profile="a;b"', "\t; version=1"]))
+                value += decoration
+                if draw(st.integers(0, 7)) == 0:
+                    value = value.upper() if "charset" not in value else value.split(";")[0].upper() + ";" + value.split(";", 1)[1]
+            headers["Content-Type"] = value
         w_key = "*" if dialect == "2.0" else choice
         has_w = w_key in wit[key]
         bmode = draw(st.sampled_from(["witness", "witness", "witness", "junk", "malformed", "other", "empty", "lines"]))
